@@ -1635,8 +1635,10 @@ chkpnt(void)
 		rc += chkpnt1(chkpnts[i].key);
 	}
 fin:
-	/* all checkpoints cleared hopefully */
+	/* all checkpoints cleared hopefully,
+	 * the nodes will be inserted afresh, forget the old links */
 	ichkpnts = 0U;
+	NEDTRIE_INIT(&chkpntr);
 	return rc;
 }
 
